@@ -59,6 +59,9 @@ TSTEPS = [10000, 3000, 30000, 240000, 1500, 60000, 120000, 100, 1]
 
 
 def gen_spec(rng, kind=None, maxn=4, via=None):
+    want_uamiv = via == 'uamiv'
+    if want_uamiv:
+        kind, via = 'grid', None
     kind = kind or str(rng.choice(['grid', 'grid', 'grid', 'bdy']))
     nt = int(rng.integers(1, maxn + 1))
     nz = int(rng.integers(1, maxn + 1))
@@ -93,10 +96,63 @@ def gen_spec(rng, kind=None, maxn=4, via=None):
     if spec['via'] == 'griddesc' and rng.random() < 0.5:
         # with the CF coordinate variables the constructor adds by default
         spec['withcf'] = True
+    if want_uamiv or (via is None and kind == 'grid' and UAMIV_SHARE and
+                      rng.random() < UAMIV_SHARE):
+        # the IOAPI-class file the gridded CAMx READER returns for an image
+        # written by the independent codec (whole-hour times, names of at
+        # most 10 characters, uniform sigma levels, two-digit-year window)
+        spec['via'] = 'uamiv'
+        spec.pop('own_tflag', None)
+        spec.pop('withcf', None)
+        spec['masked'] = False
+        spec['names'] = ['O3', 'NO2', 'CO_X', 'ABCDEFGHIJ'][:nv]
+        spec['stime'] = (stime // 10000) * 10000
+        spec['tstep'] = int(rng.choice([10000, 30000, 60000, 120000,
+                                        240000]))
+        spec['vglvls'] = [float(np.float32(x)) for x in
+                          np.linspace(0, 1, nz + 1)[::-1]]
+        y, j = divmod(sdate, 1000)
+        if not 1971 <= y <= 2067:
+            spec['sdate'] = (1971 + y % 96) * 1000 + min(j, 365)
     return spec
 
 
+# share of gridded specs read through the CAMx reader (0 switches it off)
+UAMIV_SHARE = 0.12
+_uamiv_paths = []
+
+
+def uamiv_spec(spec):
+    return {'fmt': 'uamiv', 'nx': spec['nx'], 'ny': spec['ny'],
+            'nz': spec['nz'], 'nt': spec['nt'], 'names': list(spec['names']),
+            'sdate': spec['sdate'], 'shour': spec['stime'] // 10000,
+            'dhour': spec['tstep'] // 10000, 'seed': spec['seed'],
+            'hostile': False, 'name': 'AVERAGE', 'iproj': 2, 'itzon': 0,
+            'xorg': spec['xorig'], 'yorg': spec['yorig'],
+            'delx': spec['xcell'], 'dely': spec['ycell']}
+
+
+def build_uamiv(spec):
+    import os
+    import tempfile
+    from . import harness, refcamx
+    from PseudoNetCDF.camxfiles.Memmaps import uamiv
+    fd, path = tempfile.mkstemp(suffix='.uamiv', dir=harness.tmproot())
+    with os.fdopen(fd, 'wb') as fh:
+        fh.write(refcamx.encode(uamiv_spec(spec)))
+    _uamiv_paths.append(path)
+    while len(_uamiv_paths) > 64:
+        try:
+            os.unlink(_uamiv_paths.pop(0))
+        except OSError:
+            pass
+    return uamiv(path)
+
+
 def arrays(spec):
+    if spec.get('via') == 'uamiv':
+        from . import refcamx
+        return dict(refcamx.content(uamiv_spec(spec))['vars'])
     out = {}
     for i, name in enumerate(spec['names']):
         if spec['kind'] == 'grid':
@@ -123,6 +179,8 @@ def fileattrs(spec):
 
 def build(spec):
     from PseudoNetCDF.cmaqfiles import ioapi_base
+    if spec.get('via') == 'uamiv':
+        return build_uamiv(spec)
     arrs = arrays(spec)
     if spec['via'] == 'griddesc' and spec['kind'] == 'grid':
         from PseudoNetCDF.cmaqfiles import griddesc
